@@ -35,6 +35,7 @@ def gen_history(rng, tier):
     lim = rng.choice(LIMITS)
     ops = []
     p_foreign = rng.choice([0.0, 0.0, 0.08, 0.15])
+    p_relink = rng.choice([0.0, 0.0, 0.0, 0.1])
     for _ in range(n):
         if ops and rng.random() < p_foreign:
             # an entry of reports/ that is NOT an archive slot although its name begins like one: a packed or renamed archive,
@@ -42,6 +43,9 @@ def gen_history(rng, tier):
             ops.append(["foreign", "report-%d%s" % (rng.choice([1, 1, 2, 2, 3, 4, 10, 20]),
                                                    rng.choice([".tar.gz", "-keep", ".bak", "_old", " (copy)", "x", ".d"])),
                         rng.choice(["file", "dir"])])
+        elif ops and rng.random() < p_relink:
+            # the user moved report/ elsewhere (another disk) and linked it back: still the current report, archived next time
+            ops.append(["relink"])
         elif rng.random() < 0.72 or not ops:
             ops.append(["run", lim if fixed else rng.choice(LIMITS)])
         else:
@@ -102,6 +106,15 @@ def run_history(ops, via_project=False):
     made = {}
     try:
         for op in ops:
+            if op[0] == "relink":
+                rd = os.path.join(top, "report")
+                if os.path.isdir(rd) and not os.path.islink(rd):
+                    ext = os.path.join(top, "elsewhere_%d" % len(obs))
+                    shutil.move(rd, ext)
+                    os.symlink(ext, rd)
+                facts.append({"foreign": dict(made), "foreign_now": foreign_state(top, made)})
+                obs.append(observe(top))
+                continue
             if op[0] == "foreign":
                 os.makedirs(os.path.join(top, "reports"), exist_ok=True)
                 p = os.path.join(top, "reports", op[1])
@@ -134,7 +147,11 @@ def run_history(ops, via_project=False):
                     f.write(str(nxt))
                 nxt += 1
             else:
-                shutil.rmtree(os.path.join(top, "reports", "report-%d" % op[1]), ignore_errors=True)
+                victim = os.path.join(top, "reports", "report-%d" % op[1])
+                if os.path.islink(victim):
+                    os.remove(victim)          # an archive that is a link (the report had been moved and linked back)
+                else:
+                    shutil.rmtree(victim, ignore_errors=True)
                 facts.append({"foreign": dict(made), "foreign_now": foreign_state(top, made)})
             obs.append(observe(top))
     finally:
@@ -158,7 +175,7 @@ def oracle(ops, obs, facts):
         if facts[i].get("foreign") != facts[i].get("foreign_now"):
             return ("foreign-entry-touched", "an entry of reports/ that is not an archive slot was removed or changed: %s -> %s" % (
                 facts[i].get("foreign"), facts[i].get("foreign_now")), i)
-        if op[0] == "foreign":
+        if op[0] in ("foreign", "relink"):
             if cur != pcur or arch != parch:
                 return ("foreign-entry-changed-archives", "creating %s changed the report or an archive" % op[1], i)
         elif op[0] == "delete":
@@ -239,7 +256,8 @@ Definition agrees (c : list op * list (option obs)) : bool :=
 def cases_file(cases):
     # entries of reports/ that are not archive slots do not exist for the model: the ops that create them and the (unchanged)
     # observations after them are left out
-    cases = [([op for op in ops if op[0] != "foreign"], [o for op, o in zip(ops, obs) if op[0] != "foreign"]) for ops, obs in cases]
+    cases = [([op for op in ops if op[0] not in ("foreign", "relink")], [o for op, o in zip(ops, obs) if op[0] not in ("foreign", "relink")])
+             for ops, obs in cases]
     body = ";\n  ".join("(%s,\n   %s)" % (c_list(ops, c_op), c_list(obs, c_obs)) for ops, obs in cases)
     return HEADER + "Definition cases : list (list op * list (option obs)) := [\n  %s\n].\n" % body + \
         "Eval vm_compute in (find_indexes (fun c => negb (agrees c)) cases).\n"
@@ -265,6 +283,7 @@ def check(run):
         run.count("runs", sum(1 for o in ops if o[0] == "run"))
         run.count("deletes", sum(1 for o in ops if o[0] == "delete"))
         run.count("foreign_entries", sum(1 for o in ops if o[0] == "foreign"))
+        run.count("report_moved_and_linked_back", sum(1 for o in ops if o[0] == "relink"))
         if any(o[0] == "foreign" for o in ops):
             run.count("histories_with_foreign_entries")
         # non-trivial: some run actually removed an archive, or rotated over a hole
